@@ -280,6 +280,95 @@ def run(ctx):
             r.ok("%s: %s and its args both come from %s" % (run_fn.short, norm(cs.node), a))
         else:
             r.fail(run_fn, cs.node, norm(cs.node), "the handled command (%s) and the parsed arguments (%s) do not come from the same resolved command" % (a, b))
+
+    # ---------------------------------------------------------------- R8
+    r = ctx.rule("C04-R8", "SIBLING", "'handled' means what a listener said with handled(): the predicate that lets _do_handle skip the "
+                 "handler reads exactly the field its setter writes and nothing else (stopping propagation is not handling)", reference=1)
+    pre = ctx.cls("clikit.api.event.pre_handle_event.PreHandleEvent")
+    getter = pre.methods.get("is_handled")
+    ctx.require(getter is not None, "PreHandleEvent.is_handled missing")
+    set_fields = {}
+    for name, m in pre.methods.items():
+        if name in ("__init__", "is_handled"):
+            continue
+        prm = [a for a in m.params if a != "self"]
+        for n in walk_no_nested(m.node):
+            if isinstance(n, ast.Assign) and isinstance(n.value, ast.Name) and n.value.id in prm:
+                for t in n.targets:
+                    if isinstance(t, ast.Attribute) and isinstance(t.value, ast.Name) and t.value.id == "self":
+                        set_fields.setdefault(t.attr, name)
+    for ret in q.returns(getter):
+        reads = set()
+        others = []
+        for n in walk_no_nested(ret.value) if ret.value is not None else []:
+            if isinstance(n, ast.Attribute) and isinstance(n.value, ast.Name) and n.value.id == "self":
+                par = getattr(n, "_parent", None)
+                if isinstance(par, ast.Call) and par.func is n:
+                    others.append(norm(par))
+                else:
+                    reads.add(n.attr)
+        fld = [f for f in reads if f in set_fields]
+        if len(fld) == 1 and reads == set(fld) and not others:
+            r.ok("PreHandleEvent.is_handled returns self.%s, written by %s()" % (fld[0], set_fields[fld[0]]))
+        else:
+            r.fail(getter, ret, norm(ret), "PreHandleEvent.is_handled also depends on %s: the handler is skipped (zero invocations, status taken from the event) "
+                   "although no listener marked the event handled" % ", ".join(sorted(others) + sorted("self." + x for x in reads - set(fld))))
+
+    # ---------------------------------------------------------------- R9
+    r = ctx.rule("C04-R9", "OWNER", "the handler's result reaches the normalisation in Command.handle unchanged: what sits between "
+                 "(Command._do_handle after the pre-handle arm, CallbackHandler.handle) returns the value of the call it "
+                 "makes on every path - no other constant, no filtering by type", reference=2)
+    cb = ctx.cls("clikit.handler.callback_handler.CallbackHandler")
+    cbh = cb.methods.get("handle")
+    ctx.require(cbh is not None, "CallbackHandler.handle missing")
+    for fn in (cbh, do_handle):
+        cfg = ctx.cfg(fn)
+        if fn is do_handle:
+            calls = [cs.node for cs in hcalls]
+        else:
+            calls = [c for c in q.calls(fn) if isinstance(c.func, ast.Attribute) and isinstance(c.func.value, ast.Name) and c.func.value.id == "self"]
+        if not calls:
+            r.fail(fn, fn.node, "no forwarded call", "%s does not call the handler / callback" % fn.short)
+            continue
+        call_nodes = {n.id for c in calls for n in cfg.nodes_of(c)}
+        # locals that hold the call's value
+        holders = set()
+        for n in cfg.nodes:
+            if n.kind == "stmt" and isinstance(n.ast, ast.Assign) and n.ast.value in calls and isinstance(n.ast.targets[0], ast.Name):
+                holders.add(n.ast.targets[0].id)
+        after = cfg.reach(list(call_nodes))
+        bad = None
+        nret = 0
+        for n in cfg.nodes:
+            if n.kind != "return" or n.id not in after:
+                continue
+            nret += 1
+            v = n.ast.value
+            if v in calls:
+                continue
+            if isinstance(v, ast.Name) and v.id in holders:
+                others_w = [w for w in cfg.writes(lambda t, nm=v.id: t == nm) if not (isinstance(w.ast, ast.Assign) and w.ast.value in calls)]
+                if not others_w:
+                    continue
+            bad = n
+            break
+        # an implicit fall off the end after the call loses the result as well
+        rets_ = {n.id for n in cfg.nodes if n.kind == "return"}
+        if bad is None and cfg.exit.id in cfg.reach([x for x in call_nodes if x not in rets_], blocked=rets_):
+            r.fail(fn, calls[0], norm(calls[0])[:60] + " result dropped", "%s can end without returning the result of %s" % (fn.short, norm(calls[0])[:60]))
+        elif bad is not None:
+            r.fail(fn, bad.ast, norm(bad.ast), "%s returns `%s` after calling the handler: a truthy result that is not passed on (a float, a non-empty string) "
+                   "is reported as success, or a different status than the handler's" % (fn.short, norm(bad.ast)))
+        else:
+            r.ok("%s: returns the result of %s on all %d return(s) after it" % (fn.short, norm(calls[0])[:50], nret))
+
+    # ---------------------------------------------------------------- R10
+    from .c17 import memo_key_rule
+
+    r = ctx.rule("C04-R10", "CACHEKEY", "the error report cannot replay text prepared for another stream: the key of the trace's snippet memo covers "
+                 "every input of the memoised value, e.g. the stream's encoding capability (same rule as C17-R4; a snippet "
+                 "with box-drawing characters replayed to an ASCII stream raises UnicodeEncodeError out of run())", reference=1)
+    memo_key_rule(ctx, r, only_module="clikit.ui.components.exception_trace")
     return ctx.results
 
 
